@@ -45,7 +45,7 @@ func ZZ_C14_encoding() {
 		d := v - last
 		last = v
 		q := d >> p
-		vAssume(q <= 8)
+		vAssume(q <= uint64(vParam("maxq", 2))+6)
 		for k := uint64(0); k < q; k++ {
 			bits = append(bits, 1)
 		}
